@@ -220,6 +220,12 @@ class StmtMixin:
             vv = Val(dt.v, z3.Select(d.map(dterm), x))
             item = {"items": Val(PYOBJ, None, (kv, vv), True), "keys": kv, "values": vv}[mode]
             vars_ = [x]
+        elif info.kind == "indexed" and getattr(info, "range", None) is not None:
+            lo, hi = info.range
+            i = z3.Int(fresh_name("qk"))
+            guard = z3.And(i >= lo, i < hi)
+            item = Val(T.INT, i)
+            vars_ = [i]
         elif info.kind == "indexed":
             i = z3.Int(fresh_name("qi"))
             guard = z3.And(i >= 0, i < info.n)
